@@ -10,6 +10,8 @@ import (
 
 	"verifharness/common"
 
+	stakingtypes "github.com/cosmos/cosmos-sdk/x/staking/types"
+
 	providerkeeper "github.com/cosmos/interchain-security/v7/x/ccv/provider/keeper"
 	providertypes "github.com/cosmos/interchain-security/v7/x/ccv/provider/types"
 )
@@ -69,12 +71,49 @@ func TestDriver(t *testing.T) {
 		cappedCopy := append([]providertypes.ConsensusValidator{}, capped...)
 		shaped := env.K.CapValidatorsPower(env.Ctx, k.PowerCap, cappedCopy)
 
+		// composition: the real ComputeNextValidators on staking validators that are all eligible
+		// (opted in, no lists, no min stake, inactive validators allowed), so that its result is the
+		// three shaping stages applied to exactly k.Vals
+		w := common.NewWorld(0)
+		byAddr := map[string]int64{}
+		var bonded []stakingtypes.Validator
+		for _, v := range k.Vals {
+			val := w.AddVal(v[1] * common.PowerReduction)
+			val.Status = stakingtypes.Bonded
+			val.LastPower = v[1]
+			byAddr[string(val.ConsAddr())] = v[0]
+			bonded = append(bonded, val.Staking())
+		}
+		env2 := common.NewProviderEnv(t, w)
+		for _, val := range w.Vals {
+			env2.K.SetOptedIn(env2.Ctx, cid, providertypes.NewProviderConsAddress(val.ConsAddr()))
+		}
+		for _, p := range k.Prio {
+			for _, val := range w.Vals {
+				if byAddr[string(val.ConsAddr())] == p {
+					env2.K.SetPrioritylist(env2.Ctx, cid, providertypes.NewProviderConsAddress(val.ConsAddr()))
+				}
+			}
+		}
+		params2 := params
+		params2.AllowInactiveVals = true
+		var composed common.T = common.L()
+		if next, err := env2.K.ComputeNextValidators(env2.Ctx, cid, bonded, params2, 0); err == nil {
+			out := make([]common.T, len(next))
+			for i, v := range next {
+				out[i] = common.L(byAddr[string(v.ProviderConsAddr)], v.Power)
+			}
+			composed = out
+		} else {
+			composed = common.L(common.L(-1, -1))
+		}
+
 		vals := make([]common.T, len(k.Vals))
 		for i, v := range k.Vals {
 			vals[i] = common.L(v[0], v[1])
 		}
 		input := common.L(vals, common.Ints(k.Prio), int64(k.TopN), int64(k.SetCap), int64(k.PowerCap))
-		obs := common.L(nmp, enc(p), enc(np), enc(capped), enc(shaped))
+		obs := common.L(nmp, enc(p), enc(np), enc(capped), enc(shaped), composed)
 		return input, obs
 	})
 }
